@@ -400,6 +400,18 @@ func v2ExtraPass(rec *Recorder, rng *rand.Rand, lvl string) int64 {
 					s := v2String(&v, tp, env && dec == 'E')
 					if mode == "nil-receiver" {
 						useNilReceiver = true
+						// a rejected vector (all groups present, one token repeated or one base metric missing) first
+						var junk v2Vec
+						for k := 0; k < v2N; k++ {
+							junk[k] = uint8(rng.Intn(len(v2Defs[k].Codes)))
+						}
+						js := v2String(&junk, true, true)
+						if rng.Intn(2) == 0 {
+							js += "/AR:H"
+						} else {
+							js = js[5:]
+						}
+						v2Decode(dec, js)
 					} else {
 						setHook(hookQueries(rng))
 					}
